@@ -1071,3 +1071,137 @@ def run(ctx: Context):
         for n in gs.cfg().find(is_return):
             r.require(attr_path(n.ast.value) == "self._shares_placed", gs, gs.loc(n.ast),
                       "get_shares_placed returns %s" % src(gs, n.ast.value))
+
+    # -- 8. the share-holder proxy hands every remote outcome to its caller ----
+    with ctx.rule("C06.8", "E7", "WriteBucketProxy: in every method behind landlords[i].put_*/close the Deferred of "
+                  "each remote call (callRemote, or a self-call that performs one) is part of the returned Deferred, "
+                  "and no handler on the way replaces its failure - otherwise the Encoder's "
+                  "addErrback(_remove_shareholder) of C06.4 never sees the failed write", expected=9) as r:
+        pci = idx.cls(PROXY)
+        seen = set()
+        for ci in [pci] + list(idx.subclasses(pci)):
+            pf = ProxyFlow(idx, ci, r)
+            for m in pf.scope(REMOTE_WRITES):
+                if m.qual in seen:
+                    continue
+                seen.add(m.qual)
+                pf.check_unit(m)
+                r.count(len(m.cfg().nodes))
+            missing = [t for t in REMOTE_WRITES if t not in pf.eff]
+            if missing:
+                for t in missing:
+                    m = ci.lookup(t)
+                    r.violation(m, m.loc(), "%s.%s performs no remote call at all (neither directly nor through a "
+                                "helper): the data it is given never reach the server, yet its caller sees success"
+                                % (ci.name, t))
+
+    # -- 9. remote close only after the final write succeeded -------------------
+    with ctx.rule("C06.9", "E7/R1", "WriteBucketProxy.close: the buffered tail is flushed unless nothing is queued, and "
+                  "callRemote('close') is sent only from a success callback of the Deferred carrying that final "
+                  "write (a share is finalised - visible and counted - only when complete)", expected=2) as r:
+        pci = idx.cls(PROXY)
+        seen = set()
+        for ci in [pci] + list(idx.subclasses(pci)):
+            cl = ci.lookup("close")
+            if cl is None:
+                raise AnchorVanished("%s.close" % ci.qual)
+            if cl.qual in seen:
+                continue
+            seen.add(cl.qual)
+            pf = ProxyFlow(idx, ci, r)
+            cfg = cl.cfg()
+            fnorm = FlowNorm(cl)
+            # all units of close, with their remote effects
+            units = []
+
+            def collect(fi, chain):
+                units.append((fi, chain))
+                for (sub, node) in pf.child_units(fi):
+                    collect(sub, chain + [(fi, sub, node)])
+            collect(cl, [])
+            is_close = lambda c: call_tail(c) == "callRemote" and _const_arg0(c) == "close"
+            K = [(fi, chain, c) for (fi, chain) in units for c in pf.effects(fi) if is_close(c)]
+            W = [(fi, chain, c) for (fi, chain) in units for c in pf.effects(fi) if not is_close(c)]
+            r.site(cl, None, "close")
+            if not K:
+                r.violation(cl, cl.loc(), "%s never sends callRemote('close'): the share stays in incoming/ and is "
+                            "not readable although it is reported as placed" % short(cl))
+                continue
+            buffered = [t for t in PUTS if ci.lookup(t) is not None and not pf.always_writes(ci.lookup(t))]
+            if buffered and not W:
+                r.violation(cl, cl.loc(), "%s never flushes the write buffer (no remote write before the remote "
+                            "close) although %s may return with data still queued: the share is finalised "
+                            "incomplete" % (short(cl), ", ".join(buffered)))
+                continue
+            # (a) the flush may only be skipped when nothing is queued
+            ownW = [c for (fi, chain, c) in W if fi is cl]
+            if buffered and ownW:
+                wnodes = [pf.node_of(cl, c) for c in ownW]
+
+                def nothing_queued(n, lab):
+                    f = fnorm.edge_fact(n, lab)
+                    if not f:
+                        return False
+                    op, a, b = f
+                    buf = lambda s: isinstance(s, str) and re.match(r"^self\._write_buffer\.\w+\(\)$", s) is not None
+                    return (op in ("<=", "==") and buf(a) and b == "0") or (op == "==" and a == "0" and buf(b)) \
+                        or (op == "false" and buf(a))
+
+                def tr(n, lab, nxt, st):
+                    if lab == "exc" or infeasible(n, lab) or n in wnodes or nothing_queued(n, lab):
+                        return None
+                    return 0
+                visited, parent = explore(cfg, 0, tr)
+                r.count(len(visited))
+                for (nid, st) in sorted(visited):
+                    if cfg.nodes[nid].kind == "exit":
+                        w = witness(cfg, parent, (nid, st))
+                        r.violation(cl, cl.loc(), "%s can finish without flushing the write buffer on a path that is "
+                                    "not guarded by 'no bytes queued' (self._write_buffer.<count>() == 0): the last "
+                                    "batch of share data is never written, the share is finalised incomplete "
+                                    "(path: %s)" % (short(cl), w.brief()), w)
+                        break
+            # (b) close is a success callback of the Deferred that carries each write
+            for (kfi, kchain, kc) in K:
+                r.site(kfi, kc, "remote close")
+                for (wfi, wchain, wc) in W:
+                    wname = call_name(wc) or call_tail(wc)
+                    # the unit of the write must enclose the unit of the close
+                    if kfi is wfi or len(kchain) <= len(wchain) or any(a[1] is not b[1] for a, b in zip(kchain, wchain)):
+                        if kfi is wfi or [x[1] for x in kchain] == [x[1] for x in wchain[:len(kchain)]]:
+                            r.violation(kfi, kfi.loc(kc), "%s sends callRemote('close') without waiting for the "
+                                        "outcome of %s: the server finalises the share even when that write fails "
+                                        "(incomplete share visible to readers / counted as placed)" % (short(cl), wname))
+                            continue
+                        raise AnalysisError("%s: remote close and %s live in unrelated callbacks (not modelled)"
+                                            % (short(cl), wname))
+                    (pfi, sub, node) = kchain[len(wchain)]
+                    att = pf.attachments(pfi, sub, node)
+                    pm = pf.pm(pfi)
+                    wchained, wouter = chained_regs(pm, wc)
+                    wpar = pm.get(id(wouter))
+                    wvar = wpar.targets[0].id if isinstance(wpar, ast.Assign) and len(wpar.targets) == 1 \
+                        and isinstance(wpar.targets[0], ast.Name) and wpar.value is wouter else None
+                    good = False
+                    for (kind, pos, rc) in att:
+                        if not ((kind == "cb" and pos == 0) or (kind == "pair" and pos == 0)):
+                            continue
+                        if any(x is rc for (_k, x) in wchained):
+                            good = True
+                            break
+                        base = rc.func.value
+                        while isinstance(base, ast.Call) and isinstance(base.func, ast.Attribute) and base.func.attr in REGS:
+                            base = base.func.value
+                        if wvar is not None and isinstance(base, ast.Name) and base.id == wvar:
+                            wn = pf.node_of(pfi, wc)
+                            rn = pf.node_of(pfi, rc)
+                            redefined = lambda n, _v=wvar, _wn=wn: n.kind == "stmt" and _v in node_stores(n) and n is not _wn
+                            if not must_pass(pfi.cfg(), wn, lambda l: l != "exc", lambda n, _rn=rn: n is _rn,
+                                             lambda n: n.kind == "exit" or redefined(n)):
+                                good = True
+                                break
+                    if not good:
+                        r.violation(pfi, pfi.loc(node), "%s: the callback that sends callRemote('close') is not a "
+                                    "success callback (addCallback) of the Deferred of %s on every path: the share "
+                                    "is finalised without waiting for / regardless of the outcome of the final "
+                                    "write" % (short(cl), wname))
